@@ -169,6 +169,10 @@ Definition restamp (vs : list V) : list V :=
 Definition wf (r : rec) : Prop :=
   NoDup (names_of r) /\ (forall n, In n (names_of r) -> ~ In n res_names) /\ List.length (rres r) = List.length RES.
 
+(* wf as a boolean (for concrete witnesses) *)
+Definition wfb (r : rec) : bool :=
+  nodupb (names_of r) && forallb (fun n => negb (mem n res_names)) (names_of r) && Nat.eqb (List.length (rres r)) (List.length RES).
+
 (* ============================== REFERENCE ============================== *)
 
 Definition ref_merge (replace : bool) (ds : list desc) : desc := ref_entries replace ds.
@@ -379,6 +383,33 @@ Definition rewrite (r : rec) (fields exclude : list string) : rec :=
   | _, _ => init_from_dict (rname r) (rewrite_desc (desc_of r) fields exclude)
                            (fun k => chain_get k [[]; asdict r])
   end.
+
+(* ---- specification predicates used by the theorems about groups ---- *)
+Definition nonres (k : string) : bool := negb (is_res k).
+(* the typename and the member (index into the flattened member list) a slot name is served by:
+   the first member that has the slot *)
+Fixpoint ref_slot (k : string) (ms : list rec) : option (string * nat) :=
+  match ms with
+  | [] => None
+  | m :: t => match assoc k (desc_of m ++ RES) with
+              | Some ty => Some (ty, O)
+              | None => option_map (fun ti => (fst ti, S (snd ti))) (ref_slot k t)
+              end
+  end.
+(* a group whose routing table sends every slot to the first member having it and lists the members'
+   (non-reserved) field names in order of first appearance *)
+Definition group_ok (g : group) : Prop :=
+  Forall wf (gmembers g) /\
+  (forall k, assoc k (gtab g) = ref_slot k (gmembers g)) /\
+  filter nonres (keys (gtab g)) = dedup (List.concat (map names_of (gmembers g))) /\
+  NoDup (keys (gtab g)).
+(* admissible constructor arguments: well-formed records, and non-empty groups that are group_ok
+   (group_make_ok: everything the constructor builds from admissible arguments is group_ok again) *)
+Definition arg_ok (a : garg) : Prop :=
+  match a with ARec r => wf r | AGrp g => group_ok g /\ gmembers g <> [] end.
+(* side conditions on the generated tables, as a boolean *)
+Definition tables_ok : bool :=
+  nodupb res_names && negb (String.eqb (ts_k1 TS) (ts_k2 TS)) && negb (mem (ts_k1 TS) res_names) && negb (mem (ts_k2 TS) res_names).
 
 (* ============================== P-MODEL ============================== *)
 Section PModel.
